@@ -483,6 +483,7 @@ var (
 	reHasDotOrExp  = mustRe(`.*[.e].*`)
 	reSignedDigits = mustRe(`-?[0-9]+`)
 	reDecimalLit   = mustRe(`0|[1-9][0-9]*`)
+	reOneCommentTok = mustRe(`//[^\n]*|/\*([^*]|\*+[^*/])*\*+/`)
 )
 
 func mustRe(s string) *Re {
